@@ -20,6 +20,9 @@ type Case struct {
 	Byz    []int    `json:"byz"`
 	Repair bool     `json:"repair"` // neutralise known finding proposer-cache-lost-on-reload after restarts
 	Ops    []sim.Op `json:"ops"`    // adversarial prefix
+	// ViaSwitch: nodes enter consensus (at start and after restarts) through
+	// ConsensusReactor.SwitchToConsensus, as nodes with fast_sync enabled do
+	ViaSwitch bool `json:"viaSwitch,omitempty"`
 }
 
 func seq(n int) []int {
@@ -73,6 +76,7 @@ func genCase(t *rapid.T) Case {
 	c.Ops = rapid.SliceOfN(rapid.Custom(func(t *rapid.T) sim.Op {
 		return sim.Op{K: rapid.SampledFrom(opKinds).Draw(t, "k"), N: rapid.IntRange(0, 63).Draw(t, "n"), A: rapid.IntRange(0, 1023).Draw(t, "a"), B: rapid.IntRange(0, 1023).Draw(t, "b"), C: rapid.IntRange(0, 1023).Draw(t, "c")}
 	}), 0, 200).Draw(t, "ops")
+	c.ViaSwitch = rapid.IntRange(0, 3).Draw(t, "viaSwitch") == 0
 	return c
 }
 
@@ -83,7 +87,7 @@ func runCase(c Case, x *h.Ctx) {
 	for _, i := range c.Byz {
 		byz[i] = true
 	}
-	net := sim.New(sim.Config{Powers: c.Powers, Byz: byz, Dir: dir, RepairProposer: c.Repair})
+	net := sim.New(sim.Config{Powers: c.Powers, Byz: byz, Dir: dir, RepairProposer: c.Repair, ViaSwitch: c.ViaSwitch})
 	defer net.Close()
 	d := sim.NewDriver(net)
 	fork := ""
@@ -183,6 +187,9 @@ func runCase(c Case, x *h.Ctx) {
 	}
 	st := d.Stats
 	x.Labelf("validators:%d", nn)
+	if c.ViaSwitch {
+		x.Label("entered-via-switch-to-consensus")
+	}
 	x.Labelf("byz:%d", len(c.Byz))
 	x.Labelf("maxround:%d", min64(st.MaxRound, 4))
 	if st.NilRounds > 0 {
